@@ -246,6 +246,15 @@ func H_C07_IntoNative() {
 	e := newEnv(ShipRoleClient, "")
 	got, err := e.c.transformSpineDataIntoShipJson([]byte(`{"datagram":{"x":1}}`))
 	zzvrt.Assert(err == nil && string(got) == c07EnvPrefix+`{"datagram":[{"x":1}]}`+c07EnvSuffix, "C07.envelope-constants")
+	// the splice is textual: string contents that mean something to replacement / formatting / templating functions must
+	// come out verbatim (closed inputs; the symbolic envelope query covers arbitrary payload bytes only for a literal splice)
+	for _, h := range []string{"$1", "${x}", "$$", "price in $US", "%s", "%d %v", "100%", "{{.}}", "payload", "#", "?", "a+b", "(x)", "^", "|"} {
+		doc := `{"datagram":{"k":"` + h + `"}}`
+		want, err1 := JsonIntoEEBUSJson([]byte(doc))
+		got, err2 := e.c.transformSpineDataIntoShipJson([]byte(doc))
+		zzvrt.Assert(err1 == nil && err2 == nil && string(got) == c07EnvPrefix+want+c07EnvSuffix, "C07.envelope-splice-alters-string-contents")
+		zzvrt.Assert(strings.Contains(want, h), "C07.into-alters-string-contents") // none of these needs escaping in JSON
+	}
 }
 
 func hasEmptyContainer(v jv) bool {
